@@ -31,7 +31,7 @@ Theorem C07_integral_partial_for : forall rho i start stop step e a o s ks (f : 
   int_val rho start a -> int_val rho stop o -> int_val rho step s ->
   indep i start rho -> indep i step rho ->
   py_range a o s = Some ks ->
-  (forall k q, In k ks -> q == inject_Z k -> ev_eq (env_upd rho i (Some q)) e (f k)) ->
+  body_rule rho i e ks f ->
   ev_eq rho (EIfLe (loop_count start stop step) e0 e0 (loop_sum i start stop step e)) (sumZ f ks).
 Proof. exact for_sum_correct. Qed.
 Print Assumptions C07_integral_partial_for.
@@ -44,7 +44,7 @@ Print Assumptions C07_integral_partial_concat.
 
 Theorem C07_initial_partial_for : forall rho i start a e (f : Z -> Q) ks o s,
   int_val rho start a -> py_range a o s = Some ks -> ks <> [] ->
-  (forall k q, In k ks -> q == inject_Z k -> ev_eq (env_upd rho i (Some q)) e (f k)) ->
+  body_rule rho i e ks f ->
   ev_eq rho (ELet [(i, start)] e) (f (hd 0%Z ks)).
 Proof. exact for_initial_correct. Qed.
 Print Assumptions C07_initial_partial_for.
@@ -53,7 +53,7 @@ Print Assumptions C07_initial_partial_for.
 Theorem C07_final_for_refuted :
   exists rho i start stop step e a o s ks (f : Z -> Q),
     int_val rho start a /\ int_val rho stop o /\ int_val rho step s /\ py_range a o s = Some ks /\ ks <> [] /\
-    (forall k q, In k ks -> q == inject_Z k -> ev_eq (env_upd rho i (Some q)) e (f k)) /\
+    body_rule rho i e ks f /\
     ~ ev_eq rho (ELet [(i, loop_final_index start stop step)] e) (f (last ks 0%Z)).
 Proof. exact for_final_refuted. Qed.
 Print Assumptions C07_final_for_refuted.
@@ -68,7 +68,7 @@ Definition guard_C07_for_final_floor (a o s : Z) : bool := ((o - a) mod s =? 0)%
 Theorem C07_final_partial_for_guarded : forall rho i start stop step e a o s ks (f : Z -> Q),
   int_val rho start a -> int_val rho stop o -> int_val rho step s ->
   py_range a o s = Some ks -> ks <> [] -> guard_C07_for_final_floor a o s = true ->
-  (forall k q, In k ks -> q == inject_Z k -> ev_eq (env_upd rho i (Some q)) e (f k)) ->
+  body_rule rho i e ks f ->
   ev_eq rho (ELet [(i, loop_final_index start stop step)] e) (f (last ks 0%Z)).
 Proof.
   intros rho i start stop step e a o s ks f Ha Ho Hs Hr Hne Hg Hb.
@@ -80,7 +80,7 @@ Theorem C07_final_for_guard_nonvacuous :
   exists rho i start stop step e a o s ks (f : Z -> Q),
     int_val rho start a /\ int_val rho stop o /\ int_val rho step s /\ py_range a o s = Some ks /\ ks <> [] /\
     ((o - a) mod s = 0)%Z /\
-    (forall k q, In k ks -> q == inject_Z k -> ev_eq (env_upd rho i (Some q)) e (f k)) /\
+    body_rule rho i e ks f /\
     ev_eq rho (ELet [(i, loop_final_index start stop step)] e) (f (last ks 0%Z)).
 Proof. exact for_final_guard_satisfiable. Qed.
 Print Assumptions C07_final_for_guard_nonvacuous.
